@@ -1,8 +1,390 @@
 import Isotp.Process
+import Isotp.Spec.Segment
+import Isotp.Proofs.Rx
 /-
-  C03 — property theorems (see DESIGN.md §6). Helper lemmas live in Isotp/Proofs.
+  C03 — "Receiver reassembles every well-formed stream and issues correct flow control."
+
+  Property theorems (see DESIGN.md §6). Helper lemmas live in Isotp/Proofs/Rx.lean.
+
+  Vocabulary (all defined in Proofs/Rx.lean):
+  * `Spec.WellFormed pre p frames`  — `frames` (data fields) is a well-formed ISO-TP encoding of `p` for a
+    receiver with address prefix `pre` (Single Frame short / escape, or First Frame + Consecutive Frames),
+    produced by any conforming sender (Spec/Segment.lean).
+  * `RxSession g s p i`  — reception of `p` in progress, First Frame and `i` Consecutive Frames consumed,
+    sender geometry `g` (TX_DL and prefix).
+  * `RxSame s s'`  — `s'` differs from `s` only in what the reception FSM does not look at; `processTx`,
+    `send`, `recv`, `advance`, un-expired `checkTimeoutsRx` are `RxSame`.
+  * `Feeds s frames s'`  — the frames are handed to `processRx` in order, with arbitrary `RxSame` steps
+    before, between and after; `feed s msgs` is the plain fold.
+  * `delivered s` / `rxTrace s` — payloads put in the rx queue / deliveries and reception errors, from the log.
+  The address filter (`isForMe`) is applied by the caller `rxLoop` (property C09); `processRx` sees accepted
+  frames only, hence the prefix bytes `pre` are arbitrary with `pre.length = rxPrefixSize`.
 -/
 namespace Isotp.C03
-open Isotp State
+open Isotp Isotp.State Isotp.Rx
+
+/-! ## A. Single Frames -/
+
+/-- A well-formed Single Frame (short or escape form, any legal padding) received while idle delivers
+    exactly its payload at once: one `deliver` event, no error, receiver still idle. -/
+theorem single_frame_delivers (s : State) (m : CanMsg) (pre p : Bytes)
+    (hw : Spec.WfSfShort pre p [m.data] ∨ Spec.WfSfEscape pre p [m.data])
+    (hpre : pre.length = s.addr.rx.rxPrefixSize) (hidle : s.rxState = .idle) :
+    (s.processRx m).1.rxQueue = s.rxQueue ++ [p] ∧
+    (s.processRx m).1.log = .deliver p :: s.log ∧
+    (s.processRx m).1.rxState = .idle ∧
+    (s.processRx m).1.pendingFc = s.pendingFc ∧
+    (s.processRx m).2.2 = true := by
+  obtain ⟨d, esc, cdl, rdl, hfr, hd, h8⟩ := sf_wellFormed_decodes pre p _ hw
+  have hdm : d = m.data := (List.cons.inj hfr).1.symm
+  subst hdm
+  rw [hpre] at hd
+  rw [processRx_sf_idle_eq s m _ _ _ _ _ hd h8 hidle]
+  exact ⟨rfl, rfl, hidle, rfl, rfl⟩
+
+/-! ## B1–B3. One step of a segmented reception -/
+
+/-- B1. From ANY state, the First Frame of a segmented well-formed stream for `p`
+    (`p.length ≤ max_frame_size`) opens a session for `p`, requests a ContinueToSend Flow Control,
+    asks for an immediate transmit pass, starts the N_Cr timer, delivers nothing; it logs nothing if
+    the receiver was idle and exactly `ReceptionInterruptedWithFirstFrameError` otherwise. -/
+theorem ff_starts_session (s : State) (m : CanMsg) (txDl : Nat) (pre p : Bytes)
+    (hpre : pre.length = s.addr.rx.rxPrefixSize) (htx : Spec.validTxDl txDl)
+    (hlen : p.length < 4294967296)
+    (hseg : Spec.ffRoom (Spec.streamCfg txDl pre) p.length < p.length)
+    (hmax : p.length ≤ s.cfg.maxFrameSize)
+    (hm : m.data = pre ++ Spec.ffHeader p.length ++ p.take (Spec.ffRoom (Spec.streamCfg txDl pre) p.length)) :
+    RxSession (Spec.streamCfg txDl pre) (s.processRx m).1 p 0 ∧
+    (s.processRx m).1.pendingFc = true ∧ (s.processRx m).1.pendingFcStatus = some 0 ∧
+    (s.processRx m).2 = (true, false) ∧
+    (s.processRx m).1.timerCf = { start := some s.now, timeout := s.cfg.tCf } ∧
+    (s.processRx m).1.rxQueue = s.rxQueue ∧
+    (s.processRx m).1.log =
+      (if s.rxState = .idle then s.log else .err s.now .InterruptedWithFirstFrame :: s.log) := by
+  refine ⟨Rx.ff_starts_session s m txDl pre p hpre htx hlen hseg hmax hm, ?_⟩
+  rw [ff_step_eq s m txDl pre p hpre htx hlen hseg hmax hm]
+  exact ⟨rfl, rfl, rfl, rfl, rfl, rfl⟩
+
+/-- B2. In a session, the next in-sequence full Consecutive Frame (not the last one) advances the
+    session, delivers nothing, logs nothing; a ContinueToSend Flow Control is requested iff
+    `blocksize > 0` and the number of Consecutive Frames received is a multiple of `blocksize`. -/
+theorem cf_advances (g : Spec.TxCfg) (s : State) (m : CanMsg) (p : Bytes) (i : Nat)
+    (hs : RxSession g s p i) (hpre : g.pre.length = s.addr.rx.rxPrefixSize) (hg : g.pre.length + 1 ≤ g.txDl)
+    (hg8 : 8 ≤ g.txDl)
+    (hmore : Spec.ffRoom g p.length + (i + 1) * Spec.cfRoom g < p.length)
+    (hm : m.data = Spec.cfOf g.pre i ((p.drop (Spec.ffRoom g p.length + i * Spec.cfRoom g)).take (Spec.cfRoom g))) :
+    RxSession g (s.processRx m).1 p (i + 1) ∧
+    (s.processRx m).1.rxQueue = s.rxQueue ∧ (s.processRx m).1.log = s.log ∧
+    (if 0 < s.cfg.blocksize ∧ (i + 1) % s.cfg.blocksize = 0 then
+      (s.processRx m).1.pendingFc = true ∧ (s.processRx m).1.pendingFcStatus = some 0 ∧
+        (s.processRx m).2 = (true, false)
+     else
+      (s.processRx m).1.pendingFc = s.pendingFc ∧ (s.processRx m).1.pendingFcStatus = s.pendingFcStatus ∧
+        (s.processRx m).2 = (s.pendingFc, false)) := by
+  refine ⟨Rx.cf_advances g s m p i hs hpre hg hg8 hmore hm, ?_⟩
+  rw [cf_step_eq g s m p i hs hpre hg hg8 hmore hm]
+  split <;> exact ⟨rfl, rfl, rfl, rfl, rfl⟩
+
+/-- B3. In a session, the Consecutive Frame that carries all the remaining bytes (followed by any
+    padding, whatever its own RX_DL) delivers exactly `p`: one `deliver p` event, `p` appended to the
+    rx queue, receiver idle with an empty buffer, timer stopped, no error, no Flow Control requested. -/
+theorem last_cf_delivers (g : Spec.TxCfg) (s : State) (m : CanMsg) (p pad : Bytes) (i : Nat)
+    (hs : RxSession g s p i) (hpre : g.pre.length = s.addr.rx.rxPrefixSize)
+    (hm : m.data = Spec.cfOf g.pre i (p.drop (Spec.ffRoom g p.length + i * Spec.cfRoom g) ++ pad)) :
+    (s.processRx m).1.rxQueue = s.rxQueue ++ [p] ∧
+    (s.processRx m).1.log = .deliver p :: s.log ∧
+    (s.processRx m).1.rxState = .idle ∧ (s.processRx m).1.rxBuf = [] ∧
+    (s.processRx m).1.timerCf.start = none ∧
+    (s.processRx m).1.pendingFc = false ∧
+    (s.processRx m).2 = (false, true) := by
+  rw [last_cf_step_eq g s m p pad i hs hpre hm]
+  exact ⟨rfl, rfl, rfl, rfl, rfl, rfl, rfl⟩
+
+/-- the buffer of a session is the prefix of `p` that the reference segmentation (`Spec.carried`) says
+    the First Frame and the first `i` Consecutive Frames carry -/
+theorem session_buffer (g : Spec.TxCfg) (s : State) (p : Bytes) (i : Nat) (hs : RxSession g s p i) :
+    s.rxBuf = p.take (Spec.carried g p.length (i + 1)) ∧ s.rxBuf.length < p.length := by
+  refine ⟨hs.buf_eq_carried, ?_⟩
+  rw [hs.buf, List.length_take]; have := hs.more; omega
+
+/-! ## B4. Whole streams -/
+
+/-- Steps that do not disturb a reception in progress: transmit passes (including the one that sends
+    the pending Flow Control), `send`, `recv`, clock advance, timeout checks before N_Cr expiry. -/
+theorem session_preserved (g : Spec.TxCfg) (s : State) (p : Bytes) (i : Nat) (hs : RxSession g s p i) :
+    RxSession g s.processTx.1 p i ∧
+    (∀ a, RxSession g (s.send a).1 p i) ∧
+    RxSession g s.recv.1 p i ∧
+    (∀ dt, RxSession g (s.advance dt) p i) ∧
+    (s.timerCf.timedOut s.now = false → RxSession g s.checkTimeoutsRx p i) :=
+  ⟨hs.of_same (rxSame_processTx s), fun a => hs.of_same (rxSame_send s a), hs.of_same (rxSame_recv s),
+   fun dt => hs.of_same (rxSame_advance s dt), fun h => hs.of_same (rxSame_checkTimeoutsRx s h)⟩
+
+/-- the same steps, as instances of the relation used by `Feeds` -/
+theorem neutral_steps (s : State) :
+    RxSame s s.processTx.1 ∧ (∀ a, RxSame s (s.send a).1) ∧ RxSame s s.recv.1 ∧
+    (∀ dt, RxSame s (s.advance dt)) ∧ (s.timerCf.timedOut s.now = false → RxSame s s.checkTimeoutsRx) :=
+  ⟨rxSame_processTx s, rxSame_send s, rxSame_recv s, rxSame_advance s, rxSame_checkTimeoutsRx s⟩
+
+/-- B4 (plain fold). Feeding the frames of ANY well-formed encoding of `p` (`p.length ≤ max_frame_size`)
+    to an idle receiver appends exactly `p` to the rx queue, leaves the receiver idle, and the only
+    reception event is that delivery (no error). -/
+theorem stream_delivers (s : State) (ms : List CanMsg) (pre p : Bytes)
+    (hw : Spec.WellFormed pre p (ms.map (·.data))) (hpre : pre.length = s.addr.rx.rxPrefixSize)
+    (hmax : p.length ≤ s.cfg.maxFrameSize) (hidle : s.rxState = .idle) :
+    (feed s ms).rxQueue = s.rxQueue ++ [p] ∧ (feed s ms).rxState = .idle ∧
+      rxTrace (feed s ms) = rxTrace s ++ [.deliver p] := by
+  obtain ⟨h1, h2, h3⟩ := feed_wellFormed s ms pre p hw hpre hmax
+  exact ⟨h1, h2, h3 hidle⟩
+
+/-- B4, "and nothing earlier": after any strict prefix of the frames the rx queue is unchanged. -/
+theorem nothing_earlier (s : State) (ms rest : List CanMsg) (pre p : Bytes)
+    (hw : Spec.WellFormed pre p ((ms ++ rest).map (·.data))) (hne : rest ≠ [])
+    (hpre : pre.length = s.addr.rx.rxPrefixSize) (hmax : p.length ≤ s.cfg.maxFrameSize) :
+    (feed s ms).rxQueue = s.rxQueue :=
+  feed_nothing_earlier s ms rest pre p hw hne hpre hmax
+
+/-- B4 (interleaved). The same from ANY state and with arbitrary reception-neutral steps before, between
+    and after the frames: exactly `p` is delivered, once; if the receiver was idle there is no
+    reception error at all. -/
+theorem stream_delivers_interleaved (s s' : State) (pre p : Bytes) (frames : List Bytes)
+    (hw : Spec.WellFormed pre p frames) (hpre : pre.length = s.addr.rx.rxPrefixSize)
+    (hmax : p.length ≤ s.cfg.maxFrameSize) (hf : Feeds s frames s') :
+    delivered s' = delivered s ++ [p] ∧ s'.rxState = .idle ∧
+      (s.rxState = .idle → rxTrace s' = rxTrace s ++ [.deliver p]) :=
+  wellFormed_delivers s s' pre p frames hw hpre hmax hf
+
+theorem nothing_earlier_interleaved (s s'' : State) (pre p : Bytes) (frames fs rest : List Bytes)
+    (hw : Spec.WellFormed pre p frames) (hpre : pre.length = s.addr.rx.rxPrefixSize)
+    (hmax : p.length ≤ s.cfg.maxFrameSize) (hsplit : frames = fs ++ rest) (hne : rest ≠ [])
+    (hf : Feeds s fs s'') : delivered s'' = delivered s :=
+  wellFormed_nothing_earlier s s'' pre p frames fs rest hw hpre hmax hsplit hne hf
+
+/-- `recv()` after the stream: with an empty queue before, it returns exactly `p` and the queue is
+    empty again. -/
+theorem recv_after_stream (s : State) (ms : List CanMsg) (pre p : Bytes)
+    (hw : Spec.WellFormed pre p (ms.map (·.data))) (hpre : pre.length = s.addr.rx.rxPrefixSize)
+    (hmax : p.length ≤ s.cfg.maxFrameSize) (hq : s.rxQueue = []) :
+    (feed s ms).recv.2 = some p ∧ (feed s ms).recv.1.rxQueue = [] := by
+  have h := (feed_wellFormed s ms pre p hw hpre hmax).1
+  rw [hq, List.nil_append] at h
+  simp [recv, h]
+
+/-- Link to `process()`: what `rxLoop` does with an inbox entry before handing it to `processRx` (clock,
+    `rx` event, timeout check) is reception-neutral while N_Cr has not expired, and for an accepted frame
+    that requests an immediate transmit pass the loop returns exactly the `processRx` result. -/
+theorem rx_loop_entry (doTx : Bool) (s : State) (st : Stats) (rest : List (Nat × CanMsg)) (dt : Nat) (m : CanMsg) :
+    (s.timerCf.timedOut (s.now + dt) = false →
+      RxSame s ((({ s with inbox := rest, now := s.now + dt } : State).emit (.rx (s.now + dt) m)).checkTimeoutsRx)) ∧
+    (s.addr.rx.isForMe m = true →
+      ((({ s with inbox := rest, now := s.now + dt } : State).emit (.rx (s.now + dt) m)).checkTimeoutsRx.processRx m).2.1
+        = true →
+      (s.rxLoop doTx st ((dt, m) :: rest)).1 =
+        ((({ s with inbox := rest, now := s.now + dt } : State).emit (.rx (s.now + dt) m)).checkTimeoutsRx.processRx m).1) :=
+  ⟨rxSame_rxLoop_entry s rest dt m, rxLoop_accepted_imm doTx s st rest dt m⟩
+
+/-! ## B5. Flow Control -/
+
+/-- A requested Flow Control is emitted by the very next transmit pass, before anything else, as the
+    frame built by `makeFlowControl`; the request is cleared (so it is sent once) and, for
+    ContinueToSend, the N_Cr timer restarts. -/
+theorem fc_sent (s : State) (st : Nat) (msg : CanMsg) (hp : s.pendingFc = true)
+    (hst : s.pendingFcStatus = some st) (hl : s.cfg.listen = false)
+    (hm : makeFlowControl s.cfg s.addr st = some msg) :
+    s.processTx.2 = (some msg, true) ∧ s.processTx.1.pendingFc = false ∧
+    s.processTx.1.log = s.log ∧
+    (st = 0 → s.processTx.1.timerCf = { start := some s.now, timeout := s.cfg.tCf }) := by
+  rw [processTx_sends_fc s st msg hp hst hl hm]
+  exact ⟨rfl, rfl, rfl, fun h => by simp [h]⟩
+
+/-- The Flow Control frame of a validated configuration: physical tx identifier, the address prefix
+    followed by `[0x30 + status, blocksize, stmin]`, padded according to the documented rule. -/
+theorem fc_frame (c : Cfg) (a : Addr) (st : Nat) (hv : c.valid = true) :
+    ∃ dlc, makeFlowControl c a st = some
+      { id := a.tx.txId .physical, ext := a.tx.mode.is29,
+        data := Spec.padFrame (Spec.TxCfg.of c a) (a.tx.txPrefix ++ fcData st c.blocksize c.stmin),
+        dlc := dlc, fd := c.canFd, brs := c.brs } :=
+  makeFlowControl_eq c a st hv
+
+theorem fc_bytes (bs stmin : Nat) (hb : bs ≤ 255) (hs : stmin ≤ 255) :
+    fcData 0 bs stmin = [0x30, u8 bs, u8 stmin] := fcData_cts bs stmin hb hs
+
+/-- The answer to a First Frame: the transmit pass that follows it emits exactly one frame, the
+    ContinueToSend Flow Control with the configured blocksize and stmin, correctly addressed and padded,
+    and the request is consumed. -/
+theorem ff_answered (s : State) (m : CanMsg) (txDl : Nat) (pre p : Bytes)
+    (hv : s.cfg.valid = true) (hl : s.cfg.listen = false)
+    (hpre : pre.length = s.addr.rx.rxPrefixSize) (htx : Spec.validTxDl txDl)
+    (hlen : p.length < 4294967296)
+    (hseg : Spec.ffRoom (Spec.streamCfg txDl pre) p.length < p.length)
+    (hmax : p.length ≤ s.cfg.maxFrameSize)
+    (hm : m.data = pre ++ Spec.ffHeader p.length ++ p.take (Spec.ffRoom (Spec.streamCfg txDl pre) p.length)) :
+    ∃ dlc, (s.processRx m).1.processTx.2 =
+      (some { id := s.addr.tx.txId .physical, ext := s.addr.tx.mode.is29,
+              data := Spec.padFrame (Spec.TxCfg.of s.cfg s.addr)
+                        (s.addr.tx.txPrefix ++ [0x30, u8 s.cfg.blocksize, u8 s.cfg.stmin]),
+              dlc := dlc, fd := s.cfg.canFd, brs := s.cfg.brs }, true) ∧
+      (s.processRx m).1.processTx.1.pendingFc = false ∧
+      RxSession (Spec.streamCfg txDl pre) (s.processRx m).1.processTx.1 p 0 := by
+  obtain ⟨dlc, hfc⟩ := makeFlowControl_eq s.cfg s.addr 0 hv
+  have hb : s.cfg.blocksize ≤ 255 ∧ s.cfg.stmin ≤ 255 := by
+    simp only [Cfg.valid, Bool.and_eq_true, decide_eq_true_eq] at hv
+    exact ⟨hv.1.1.1.2, hv.1.1.1.1.2⟩
+  rw [fcData_cts _ _ hb.1 hb.2] at hfc
+  have hsess := Rx.ff_starts_session s m txDl pre p hpre htx hlen hseg hmax hm
+  have heq := ff_step_eq s m txDl pre p hpre htx hlen hseg hmax hm
+  have hc : (s.processRx m).1.cfg = s.cfg := by rw [heq]
+  have ha : (s.processRx m).1.addr = s.addr := by rw [heq]
+  have hsend := processTx_sends_fc (s.processRx m).1 0 _ (by rw [heq]) (by rw [heq]) (by rw [hc]; exact hl)
+    (by rw [hc, ha]; exact hfc)
+  refine ⟨dlc, ?_, ?_, hsess.of_same (rxSame_processTx _)⟩
+  · rw [hsend]
+  · rw [hsend]
+
+/-- The answer to a block: same for the Consecutive Frame that completes a block of `blocksize`
+    frames without completing the message. -/
+theorem block_answered (g : Spec.TxCfg) (s : State) (m : CanMsg) (p : Bytes) (i : Nat)
+    (hv : s.cfg.valid = true) (hl : s.cfg.listen = false)
+    (hs : RxSession g s p i) (hpre : g.pre.length = s.addr.rx.rxPrefixSize) (hg : g.pre.length + 1 ≤ g.txDl)
+    (hg8 : 8 ≤ g.txDl)
+    (hmore : Spec.ffRoom g p.length + (i + 1) * Spec.cfRoom g < p.length)
+    (hm : m.data = Spec.cfOf g.pre i ((p.drop (Spec.ffRoom g p.length + i * Spec.cfRoom g)).take (Spec.cfRoom g)))
+    (hblk : 0 < s.cfg.blocksize ∧ (i + 1) % s.cfg.blocksize = 0) :
+    ∃ dlc, (s.processRx m).1.processTx.2 =
+      (some { id := s.addr.tx.txId .physical, ext := s.addr.tx.mode.is29,
+              data := Spec.padFrame (Spec.TxCfg.of s.cfg s.addr)
+                        (s.addr.tx.txPrefix ++ [0x30, u8 s.cfg.blocksize, u8 s.cfg.stmin]),
+              dlc := dlc, fd := s.cfg.canFd, brs := s.cfg.brs }, true) ∧
+      (s.processRx m).1.processTx.1.pendingFc = false := by
+  obtain ⟨dlc, hfc⟩ := makeFlowControl_eq s.cfg s.addr 0 hv
+  have hb : s.cfg.blocksize ≤ 255 ∧ s.cfg.stmin ≤ 255 := by
+    simp only [Cfg.valid, Bool.and_eq_true, decide_eq_true_eq] at hv
+    exact ⟨hv.1.1.1.2, hv.1.1.1.1.2⟩
+  rw [fcData_cts _ _ hb.1 hb.2] at hfc
+  have heq := cf_step_eq g s m p i hs hpre hg hg8 hmore hm
+  rw [if_pos hblk] at heq
+  have hc : (s.processRx m).1.cfg = s.cfg := by rw [heq]
+  have ha : (s.processRx m).1.addr = s.addr := by rw [heq]
+  have hsend := processTx_sends_fc (s.processRx m).1 0 _ (by rw [heq]) (by rw [heq]) (by rw [hc]; exact hl)
+    (by rw [hc, ha]; exact hfc)
+  exact ⟨dlc, by rw [hsend], by rw [hsend]⟩
+
+/-- "…and emits nothing else": once the request is served (`pendingFc = false`), with no received Flow
+    Control in the mailbox and nothing to transmit, a transmit pass emits no frame; in particular no
+    second Flow Control. -/
+theorem nothing_else (s : State) (h1 : s.pendingFc = false) (h2 : s.lastFc = none)
+    (h3 : s.txState = .idle) (h4 : s.txQueue = []) (h5 : s.timerFc.timedOut s.now = false) :
+    s.processTx.2.1 = none :=
+  processTx_silent s h1 h2 h3 h4 h5
+
+/-- Consecutive Frames that do not complete a block, and the last frame, request no Flow Control
+    (see `cf_advances`, `last_cf_delivers`); in listen mode a request is dropped without a frame. -/
+theorem listen_mode_no_fc (s : State) (st : Nat) (hp : s.pendingFc = true)
+    (hst : s.pendingFcStatus = some st) (hl : s.cfg.listen = true) :
+    (pendPart s).2 = none ∧ (pendPart s).1.pendingFc = false :=
+  pendPart_listen s st hp hst hl
+
+/-! ## Non-vacuity: concrete frames -/
+
+def exHalf : Half :=
+  { mode := .n11, txid := some 0x123, rxid := some 0x456, ta := none, sa := none, ae := none,
+    physId := 0, funcId := 0, rxOnly := false, txOnly := false }
+def exAddr : Addr := { tx := exHalf, rx := exHalf }
+/-- default configuration (blocksize 8, stmin 0, tx_data_length 8, max_frame_size 4095) -/
+def s0 : State := State.init {} exAddr
+def exMsg (d : Bytes) : CanMsg := { id := 0x456, ext := false, data := d }
+
+def exP : Bytes := [1, 2, 3, 4, 5, 6, 7, 8, 9, 10, 11, 12, 13, 14, 15, 16, 17, 18, 19, 20]
+/-- First Frame (FF_DL = 20), one full Consecutive Frame, last Consecutive Frame -/
+def exFrames : List Bytes :=
+  [[0x10, 0x14, 1, 2, 3, 4, 5, 6], [0x21, 7, 8, 9, 10, 11, 12, 13], [0x22, 14, 15, 16, 17, 18, 19, 20]]
+
+example : Spec.WfSegmented [] exP exFrames :=
+  ⟨8, [], [[7, 8, 9, 10, 11, 12, 13]], [14, 15, 16, 17, 18, 19, 20], by decide, by decide, by decide, by decide,
+    by decide, by decide, by decide⟩
+example : Spec.WellFormed [] exP ((exFrames.map exMsg).map (·.data)) :=
+  Or.inr (Or.inr ⟨8, [], [[7, 8, 9, 10, 11, 12, 13]], [14, 15, 16, 17, 18, 19, 20], by decide, by decide,
+    by decide, by decide, by decide, by decide, by decide⟩)
+example : ([] : Bytes).length = s0.addr.rx.rxPrefixSize ∧ exP.length ≤ s0.cfg.maxFrameSize ∧ s0.rxState = .idle := by
+  decide
+example : (feed s0 (exFrames.map exMsg)).rxQueue = [exP] := by decide
+example : (feed s0 (exFrames.map exMsg)).log = [.deliver exP] := by decide
+example : (feed s0 ((exFrames.take 2).map exMsg)).rxQueue = [] := by decide
+example : Feeds s0 exFrames (feed s0 (exFrames.map exMsg)) := feeds_feed (exFrames.map exMsg) s0
+example : (feed s0 (exFrames.map exMsg)).recv.2 = some exP := by decide
+/-- the same stream through `process()`: frames in the inbox, Flow Control `30 08 00` transmitted after the
+    First Frame, payload delivered -/
+example : (((s0.pushFrame 0 (exMsg [0x10, 0x14, 1, 2, 3, 4, 5, 6])).pushFrame 10 (exMsg [0x21, 7, 8, 9, 10, 11, 12, 13])
+      ).pushFrame 10 (exMsg [0x22, 14, 15, 16, 17, 18, 19, 20])).process true true |>.1.rxQueue = [exP] := by decide
+
+/-- the session after the First Frame and after one Consecutive Frame -/
+example : RxSession (Spec.streamCfg 8 []) (feed s0 ((exFrames.take 1).map exMsg)) exP 0 :=
+  ⟨by decide, by decide, by decide, by decide, by decide, by decide, by decide⟩
+example : RxSession (Spec.streamCfg 8 []) (feed s0 ((exFrames.take 2).map exMsg)) exP 1 :=
+  ⟨by decide, by decide, by decide, by decide, by decide, by decide, by decide⟩
+
+/-- the Flow Control that answers the First Frame: `30 08 00`, id 0x123, sent once -/
+example : (feed s0 ((exFrames.take 1).map exMsg)).processTx.2 =
+    (some { id := 0x123, ext := false, data := [0x30, 8, 0], dlc := 3 }, true) := by decide
+example : (feed s0 ((exFrames.take 1).map exMsg)).processTx.1.processTx.2.1 = none := by decide
+example : s0.cfg.valid = true ∧ s0.cfg.listen = false := by decide
+
+/-- last frame padded to 8 bytes by a sender that pads with 0xAA; payload of 10 bytes -/
+def exP2 : Bytes := [1, 2, 3, 4, 5, 6, 7, 8, 9, 10]
+def exFrames2 : List Bytes := [[0x10, 0x0A, 1, 2, 3, 4, 5, 6], [0x21, 7, 8, 9, 10, 0xAA, 0xAA, 0xAA]]
+example : Spec.WfSegmented [] exP2 exFrames2 :=
+  ⟨8, [0xAA, 0xAA, 0xAA], [], [7, 8, 9, 10], by decide, by decide, by decide, by decide, by decide, by decide,
+    by decide⟩
+example : (feed s0 (exFrames2.map exMsg)).rxQueue = [exP2] := by decide
+
+/-- extended addressing: one prefix byte (source address 0x66), CAN FD sender with TX_DL = 12 whose
+    last frame is shorter (RX_DL 8) than the First Frame -/
+def exHalfExt : Half :=
+  { mode := .e11, txid := some 0x123, rxid := some 0x456, ta := some 0x55, sa := some 0x66, ae := none,
+    physId := 0, funcId := 0, rxOnly := false, txOnly := false }
+def s0x : State := State.init { blocksize := 1, stmin := 5 } { tx := exHalfExt, rx := exHalfExt }
+def exP3 : Bytes := [1, 2, 3, 4, 5, 6, 7, 8, 9, 10, 11, 12, 13, 14, 15, 16, 17, 18, 19, 20, 21]
+def exFrames3 : List Bytes :=
+  [[0x66, 0x10, 0x15, 1, 2, 3, 4, 5, 6, 7, 8, 9], [0x66, 0x21, 10, 11, 12, 13, 14, 15, 16, 17, 18, 19],
+   [0x66, 0x22, 20, 21]]
+example : Spec.WfSegmented [0x66] exP3 exFrames3 :=
+  ⟨12, [], [[10, 11, 12, 13, 14, 15, 16, 17, 18, 19]], [20, 21], by decide, by decide, by decide, by decide,
+    by decide, by decide, by decide⟩
+example : ([0x66] : Bytes).length = s0x.addr.rx.rxPrefixSize := by decide
+example : (feed s0x (exFrames3.map exMsg)).rxQueue = [exP3] := by decide
+/-- blocksize 1: the full Consecutive Frame is answered by `55 30 01 05` -/
+example : (feed s0x ((exFrames3.take 2).map exMsg)).processTx.2 =
+    (some { id := 0x123, ext := false, data := [0x55, 0x30, 1, 5], dlc := 4 }, true) := by decide
+
+/-- Single Frames: short form with padding, and CAN FD escape form -/
+example : Spec.WfSfShort [] [0xDE, 0xAD] [[0x02, 0xDE, 0xAD, 0xCC, 0xCC, 0xCC, 0xCC, 0xCC]] :=
+  ⟨[0xCC, 0xCC, 0xCC, 0xCC, 0xCC], by decide, by decide, by decide, by decide⟩
+example : (s0.processRx (exMsg [0x02, 0xDE, 0xAD, 0xCC, 0xCC, 0xCC, 0xCC, 0xCC])).1.rxQueue = [[0xDE, 0xAD]] := by
+  decide
+example : Spec.WfSfEscape [] [1, 2, 3, 4, 5, 6, 7, 8, 9] [[0x00, 0x09, 1, 2, 3, 4, 5, 6, 7, 8, 9, 0xCC]] :=
+  ⟨[0xCC], by decide, by decide, by decide, by decide⟩
+example : (s0.processRx (exMsg [0x00, 0x09, 1, 2, 3, 4, 5, 6, 7, 8, 9, 0xCC])).1.rxQueue =
+    [[1, 2, 3, 4, 5, 6, 7, 8, 9]] := by decide
 
 end Isotp.C03
+
+#print axioms Isotp.C03.single_frame_delivers
+#print axioms Isotp.C03.ff_starts_session
+#print axioms Isotp.C03.cf_advances
+#print axioms Isotp.C03.last_cf_delivers
+#print axioms Isotp.C03.session_buffer
+#print axioms Isotp.C03.session_preserved
+#print axioms Isotp.C03.neutral_steps
+#print axioms Isotp.C03.stream_delivers
+#print axioms Isotp.C03.nothing_earlier
+#print axioms Isotp.C03.stream_delivers_interleaved
+#print axioms Isotp.C03.nothing_earlier_interleaved
+#print axioms Isotp.C03.recv_after_stream
+#print axioms Isotp.C03.rx_loop_entry
+#print axioms Isotp.C03.fc_sent
+#print axioms Isotp.C03.fc_frame
+#print axioms Isotp.C03.fc_bytes
+#print axioms Isotp.C03.ff_answered
+#print axioms Isotp.C03.block_answered
+#print axioms Isotp.C03.nothing_else
+#print axioms Isotp.C03.listen_mode_no_fc
